@@ -27,6 +27,7 @@ type PNode struct {
 	ByNum  map[int]*PNode
 	ByU8   map[uint8]string
 	ByI8   map[int8]*PNode
+	IKids  []interface{} // PNode values and untyped nils
 	Any    interface{}
 	hidden string
 }
@@ -80,6 +81,7 @@ func buildNode(r *core.Rng, path string, depth int) PNode {
 			n.ByKey[k] = buildNode(r, fmt.Sprintf("%s.ByKey[%q]", path, k), depth-1)
 		}
 	}
+	n.IKids = []interface{}{buildNode(r, path+".IKids[0]", depth-1), nil}
 	n.ByNum = map[int]*PNode{}
 	if !r.Chance(1, 5) {
 		c := buildNode(r, path+".ByNum[1]", depth-1)
@@ -131,7 +133,7 @@ func stepsFrom(t reflect.Type) []pStep {
 	}
 	switch {
 	case t == tNode || t == tPNode:
-		for _, f := range []string{"Name", "Tags", "Attr", "Kids", "PKids", "Next", "Pair", "ByKey", "ByNum", "ByU8", "ByI8", "Any", "hidden", "Missing"} {
+		for _, f := range []string{"Name", "Tags", "Attr", "Kids", "PKids", "Next", "Pair", "ByKey", "ByNum", "ByU8", "ByI8", "IKids", "Any", "hidden", "Missing"} {
 			out = append(out, pStep{kind: "F", name: f, src: "." + f})
 		}
 		for _, m := range []string{"Self", "PSelf", "GetTags", "Label", "PLabel", "Nope"} {
@@ -182,6 +184,9 @@ func stepType(t reflect.Type, s pStep) reflect.Type {
 		}
 		return f.Type
 	case "I", "K":
+		if t.Elem().Kind() == reflect.Interface {
+			return tNode // IKids holds PNode values (and nils)
+		}
 		return t.Elem()
 	case "M":
 		m, ok := tPNode.MethodByName(s.name)
@@ -227,6 +232,12 @@ func pathNav(root reflect.Value, steps []pStep) (reflect.Value, bool) {
 				return v, false
 			}
 			v = v.Index(s.idx)
+			if v.Kind() == reflect.Interface {
+				if v.IsNil() {
+					return v, false
+				}
+				v = v.Elem()
+			}
 		case "K":
 			if v.Kind() != reflect.Map {
 				return v, false
@@ -657,6 +668,25 @@ func c11Run(b *core.B) {
 		}
 		for _, root := range roots {
 			walk(root, root.typ, nil)
+		}
+		// the same member indexed at several levels of one path, the innermost element nil
+		ik := func(i int) pStep { return pStep{kind: "I", src: fmt.Sprintf("[%d]", i), idx: i} }
+		fIK := pStep{kind: "F", name: "IKids", src: ".IKids"}
+		fKids := pStep{kind: "F", name: "Kids", src: ".Kids"}
+		fPK := pStep{kind: "F", name: "PKids", src: ".PKids"}
+		name := pStep{kind: "F", name: "Name", src: ".Name"}
+		for ti, steps := range [][]pStep{
+			{fIK, ik(0), fIK, ik(0), fIK, ik(1), name}, {fIK, ik(0), fIK, ik(1), name}, {fIK, ik(1), name}, {fIK, ik(0), fIK, ik(0), name},
+			{fKids, ik(0), fIK, ik(0), fIK, ik(1), name}, {fPK, ik(0), fPK, ik(1), fPK, ik(0), name}, {fPK, ik(1), fPK, ik(0), name}, {fKids, ik(1), fKids, ik(0), fIK, ik(1), name},
+		} {
+			for ui, use := range []int{0, 1, 2, 4} {
+				idx++
+				if b.Mine(idx) {
+					c11Judge(b, g, c11Path{rootName: "root", steps: steps}, use)
+					b.Count("repeated-member-paths")
+					_, _ = ti, ui
+				}
+			}
 		}
 		// random longer walks
 		n := 6000
